@@ -192,6 +192,15 @@ theorem SameShape.takeCtx (st : Core) (ty : Nat) : SameShape st (takeCtx st ty) 
     exact ss_modOwner (SameShape.refl st) _ _ (fun _ => rfl) (fun _ => rfl) (fun _ => rfl)
   · exact SameShape.of_owners rfl rfl rfl
 
+theorem SameShape.updateCtx (st : Core) (ty : Nat) (d : Int) : SameShape st (updateCtx st ty d) := by
+  unfold Leptos.Owner.updateCtx
+  split
+  · next o e _ =>
+    simp only
+    refine ss_eq (st := st.modOwner o _) ?_ rfl rfl rfl
+    exact ss_modOwner (SameShape.refl st) _ _ (fun _ => rfl) (fun _ => rfl) (fun _ => rfl)
+  · exact SameShape.of_owners rfl rfl rfl
+
 theorem SameShape.setPaused (st : Core) (o : Nat) (p : Bool) : SameShape st (setPaused st o p) := by
   unfold Leptos.Owner.setPaused
   refine ⟨pauseWalk_arena _ _ _ _, fun x => fieldOf_pauseWalk (·.nodes) [] (fun _ _ => rfl) _ _ _ _ x,
@@ -225,6 +234,7 @@ theorem SameShape.prim_light {a b : Core} (hp : CorePrim a b) :
   | provide ty v => exact Or.inl (SameShape.provide _ _ _)
   | useCtx ty => exact Or.inl (SameShape.useCtx _ _)
   | takeCtx ty => exact Or.inl (SameShape.takeCtx _ _)
+  | updateCtx ty d => exact Or.inl (SameShape.updateCtx _ _ _)
   | setPaused o p => exact Or.inl (SameShape.setPaused _ _ _)
   | setCur cur => exact Or.inl (SameShape.of_owners rfl rfl rfl)
   | logEv e he => exact Or.inl (SameShape.of_owners rfl rfl rfl)
